@@ -72,6 +72,9 @@ struct Harness {
 	virtual std::vector<Json> simplify(const Json &plan, const Json &aux) { (void)plan; (void)aux; return {}; }
 	// called once per process before the first run
 	virtual void init() {}
+	// wall-clock watchdog of one run (seconds): the one place real time is read. It can only turn a genuine
+	// hang of code without yield points into a report; generous compared with what a run of the harness takes
+	virtual unsigned watchdog_s(const std::string &prop, const std::string &tier) const { (void)prop; (void)tier; return 600; }
 };
 
 int harness_main(int argc, char **argv, Harness &h);
